@@ -54,7 +54,7 @@ EXPECTED_PROBES = ["ndim1", "ndim2", "ndim3", "unset_cell_read", "zero_row_cell"
                    "field_assigned_from_field_view_other_field", "flat_restore",
                    "flat_restore_single_populated_cell", "setter_fields", "setter_units",
                    "rejected_fields_setter_count", "rejected_fields_setter_dup", "rejected_units_setter_count",
-                   "bigint_cells"]
+                   "bigint_cells", "cells_float32", "cells_special", "copy_via_deepcopy", "copy_via_pickle"]
 
 OPS = ["set_cell", "get_cell", "slice_get", "slice_set", "field_op", "flatten", "set_flat", "flat_restore",
        "rename",
@@ -94,7 +94,7 @@ def _gen_create(r):
     if big.chance(0.05):
         nf = big.pick([5, 8, 9, 17])
     return {"op": "create", "how": "from_data" if (ndim == 1 and r.chance(0.4)) else "from_shape",
-            "cells": "bigint" if r.fork("regime").chance(0.06) else "mixed",
+            "cells": r.fork("regime").weighted([("mixed", 84), ("bigint", 6), ("float32", 5), ("special", 5)]),
             "shape": shape, "nf": nf, "named": r.chance(0.6), "units": r.chance(0.5),
             "fill": r.randrange(10 ** 6), "prefill": r.random()}
 
@@ -155,7 +155,9 @@ def _gen_op(r, kinds):
         return {"op": k, "ff": [r.randrange(100) for _ in range(r.pick([1, 1, 2]))],
                 "missing": r.chance(0.15), "as_str": r.chance(0.3)}
     if k == "copy_check":
-        return {"op": k, "fill": r.randrange(10 ** 6), "idx": [r.randrange(100) for _ in range(3)]}
+        return {"op": k, "fill": r.randrange(10 ** 6), "idx": [r.randrange(100) for _ in range(3)],
+                # how the copy is made: the class's own copy(), copy.deepcopy, or a pickle round trip
+                "how": r.fork("how").pick(["copy", "copy", "copy", "deepcopy", "pickle"])}
     if k == "metadata":
         return {"op": k, "key": r.pick(["a", "b"]), "val": r.randrange(1000), "on": r.pick(["v", "w"])}
     if k == "second_vector":
@@ -227,6 +229,12 @@ def _cell(fill, rows, nf):
         return np.asarray(_BIG, dtype=np.int64)[g.integers(0, len(_BIG), (rows, nf))] + g.integers(
             0, 4, (rows, nf))
     a = np.round(g.uniform(-9, 9, (rows, nf)), 3)
+    if _REGIME[0] == "float32":
+        return a.astype(np.float32)            # every cell single precision
+    if _REGIME[0] == "special" and a.size:
+        a = a.copy()                           # NaN / +-inf / -0.0 among the values
+        a.flat[int(fill) % a.size] = [np.nan, np.inf, -np.inf, -0.0][int(fill) % 4]
+        return a
     if fill % 3 == 0:
         return np.round(a).astype(np.int64)
     return a
@@ -287,6 +295,10 @@ def _arr_eq(a, b):
     if a.shape != b.shape:
         return False
     with np.errstate(all="ignore"):
+        if _REGIME[0] == "float32":
+            # the class may compute in double precision and keep or narrow the result: values are
+            # compared to single-precision accuracy (dtype width is not part of the property)
+            return bool(np.allclose(a.astype(float), b.astype(float), rtol=4e-6, atol=1e-6, equal_nan=True))
         return bool(np.all((a == b) | (np.isnan(a.astype(float)) & np.isnan(b.astype(float)))))
 
 
@@ -329,6 +341,8 @@ def run(plan):
     big = _REGIME[0] == "bigint"
     if big:
         bump(probes, "bigint_cells")
+    elif _REGIME[0] != "mixed":
+        bump(probes, "cells_" + _REGIME[0])
 
     def create(op):
         shape, nf = tuple(op["shape"]), op["nf"]
@@ -810,10 +824,20 @@ def run(plan):
                 n_mut[0] += 1
                 check_all("remove_fields")
             elif k in ("copy_check", "continue_on_copy"):
+                how = op.get("how", "copy")
                 try:
-                    c = v.copy()
+                    if how == "deepcopy":
+                        c = copy.deepcopy(v)
+                        bump(probes, "copy_via_deepcopy")
+                    elif how == "pickle":
+                        import pickle
+
+                        c = pickle.loads(pickle.dumps(v))
+                        bump(probes, "copy_via_pickle")
+                    else:
+                        c = v.copy()
                 except Exception as e:
-                    viol("op_raised", f"copy() raised {e!r}", f"op_raised:copy:{sigs}")
+                    viol("op_raised", f"{how} of the vector raised {e!r}", f"op_raised:copy:{how}:{sigs}")
                     continue
                 vecs["c"] = (c, m.copy())
                 vecs["c"][1].meta = dict(c.metadata) if not dict(c.metadata) else dict(m.meta)
